@@ -567,7 +567,7 @@ CRASHES = ("TypeError", "SymbolError")
 
 def _run(chk):
     R.setup()
-    n = 70 if chk.tier != "thorough" else 450
+    n = 55 if chk.tier != "thorough" else 400
     cases = [dict(c, corpus=True) for c in corpus_cases()]
     for i in range(n):
         cases.append(gen_file(chk.rng, malformed=(i % 6 == 5)))
